@@ -1,5 +1,7 @@
 (** Proofs for C15 (xibc client proposals, genesis initialisation, rvesting). *)
-From Teleport Require Import Base.Bytes Base.Outcome Model.Rvesting Model.RvestingCheck Proofs.Rvesting Model.Halt Model.HaltAgg Model.HaltCheck.
+From Coq Require Import String.
+From Teleport Require Import Base.Bytes Base.Outcome Model.Rvesting Model.RvestingCheck Proofs.Rvesting.
+From Teleport Require Import Model.HaltGuardIR Gen.HaltGuardsGen Proofs.HaltGuards Model.Halt Model.HaltAgg Model.HaltCheck.
 Local Open Scope N_scope.
 
 (** * Generic facts about [outcome] *)
@@ -106,53 +108,113 @@ Lemma store_wf_set_cons st h c : store_wf st -> store_wf (set_cons st h c).
 Proof. exact (fun H => H). Qed.
 
 (** * What the stateless validation guarantees *)
-Lemma validate_bsc_facts hd epoch :
-  validate_bsc hd epoch = Ok tt ->
-  epoch <> 0 /\ 97 <= hd_extra_len hd /\ hd_bloom_len hd <= 256 /\ hd_nonce_len hd <= 8.
+
+(** ** Side conditions on the REGENERATED guards (Gen/HaltGuardsGen.v), decided by [vm_compute]: the guards of
+    the validation functions of /repo imply the bounds the guarded code needs.  A harmless rewrite of the Go
+    code (reordered, merged, stronger guards) re-checks; a weakened or dropped guard computes to [false] and
+    these lemmas - hence every theorem of Props/C15.v - no longer check. *)
+Lemma guard_obligations_hold : failed_guard_obligations = [].
+Proof. vm_compute. reflexivity. Qed.
+
+Lemma guard_obligation (i : nat) : nth i (map snd guard_obligations) true = true.
 Proof.
-  unfold validate_bsc, bsc_header_validate_gen. cbn [andb].
-  destruct (epoch =? 0) eqn:E0; [discriminate|].
-  destruct (256 <? hd_bloom_len hd) eqn:Eb; [discriminate|].
-  destruct (8 <? hd_nonce_len hd) eqn:En; [discriminate|].
-  destruct (hd_extra_len hd <? 32) eqn:E1; [discriminate|].
-  destruct (hd_extra_len hd <? 97) eqn:E2; [discriminate|].
-  intros _. apply N.eqb_neq in E0. apply N.ltb_ge in Eb, En, E2. repeat split; assumption.
+  assert (H : forallb (fun o => snd o) guard_obligations = true) by (vm_compute; reflexivity).
+  rewrite forallb_forall in H.
+  destruct (Nat.ltb i (List.length guard_obligations)) eqn:E.
+  - apply PeanoNat.Nat.ltb_lt in E. rewrite <- (map_length snd) in E.
+    pose proof (nth_In (map snd guard_obligations) true E) as Hin. apply in_map_iff in Hin as (o & Ho & Hin).
+    rewrite <- Ho. apply H. exact Hin.
+  - apply PeanoNat.Nat.ltb_ge in E. rewrite <- (map_length snd) in E. apply nth_overflow. exact E.
 Qed.
 
-Lemma validate_eth_facts hd : validate_eth hd = Ok tt -> hd_bloom_len hd <= 256.
+Lemma bsc_guards_epoch : existsb (forced (ABelow (KFld "Epoch") 1)) bsc_client_validate_guards = true.
+Proof. exact (guard_obligation 0). Qed.
+Lemma bsc_guards_extra : existsb (forced (ABelow (KLen "Header.Extra") (bsc_extra_vanity + bsc_extra_seal))) bsc_client_validate_guards = true.
+Proof. exact (guard_obligation 1). Qed.
+Lemma bsc_guards_bloom : existsb (forced (AAbove (KLen "Header.Bloom") bsc_bloom_byte_length)) bsc_client_validate_guards = true.
+Proof. exact (guard_obligation 2). Qed.
+Lemma bsc_guards_nonce : existsb (forced (AAbove (KLen "Header.Nonce") bsc_nonce_byte_length)) bsc_client_validate_guards = true.
+Proof. exact (guard_obligation 3). Qed.
+Lemma bsc_guards_ecrecover :
+  existsb (forced (ABelow (KLen "Extra") (N.max bsc_extra_seal 65))) bsc_ecrecover_guards
+  || (N.max bsc_extra_seal 65 <=? bsc_extra_vanity + bsc_extra_seal) = true.
+Proof. exact (guard_obligation 4). Qed.
+Lemma eth_guards_bloom : existsb (forced (AAbove (KLen "Header.Bloom") 256)) eth_client_validate_guards = true.
+Proof. exact (guard_obligation 5). Qed.
+Lemma metadata_guards_key : existsb (forced (ABelow (KLen "Key") 1)) genesis_metadata_validate_guards = true.
+Proof. exact (guard_obligation 6). Qed.
+Lemma aggregate_pair_guards_denoms : existsb (forced (ABelow (KLen "Denoms") 1)) aggregate_genesis_pair_guards = true.
+Proof. exact (guard_obligation 7). Qed.
+Lemma packet_ack_guards_data : existsb (forced (ABelow (KLen "Data") 1)) packet_genesis_ack_guards = true.
+Proof. exact (guard_obligation 8). Qed.
+Lemma packet_commitment_guards_data : existsb (forced (ABelow (KLen "Data") 1)) packet_genesis_commitment_guards = true.
+Proof. exact (guard_obligation 9). Qed.
+
+(** A lower bound of 1 on a length means the list is not empty. *)
+Lemma lenN_pos {A} (l : list A) : 1 <= lenN l -> l <> [].
+Proof. intros H E. subst. cbn in H. apply N.le_ngt in H. apply H. reflexivity. Qed.
+
+Lemma validate_bsc_facts hd cid epoch tr :
+  validate_bsc hd cid epoch tr = Ok tt ->
+  epoch <> 0 /\ bsc_extra_vanity + bsc_extra_seal <= hd_extra_len hd /\
+  hd_bloom_len hd <= bsc_bloom_byte_length /\ hd_nonce_len hd <= bsc_nonce_byte_length.
 Proof.
-  unfold validate_eth, eth_header_validate_gen. cbn [andb].
-  destruct (256 <? hd_bloom_len hd) eqn:Eb; [discriminate|]. intros _. apply N.ltb_ge in Eb. exact Eb.
+  unfold validate_bsc.
+  destruct (guards_reject (bsc_client_env hd cid epoch tr) bsc_client_validate_guards) eqn:E0; [discriminate|].
+  pose proof E0 as E1. intros _. repeat split.
+  - pose proof (accepted_lower_bound _ _ _ _ epoch E0 bsc_guards_epoch eq_refl) as H. intro Hz. subst. apply N.le_ngt in H. apply H. reflexivity.
+  - exact (accepted_lower_bound _ _ _ _ _ E1 bsc_guards_extra eq_refl).
+  - exact (accepted_upper_bound _ _ _ _ _ E1 bsc_guards_bloom eq_refl).
+  - exact (accepted_upper_bound _ _ _ _ _ E1 bsc_guards_nonce eq_refl).
+Qed.
+
+Lemma validate_eth_facts hd tr : validate_eth hd tr = Ok tt -> hd_bloom_len hd <= 256.
+Proof.
+  unfold validate_eth.
+  destruct (guards_reject (eth_client_env hd tr) eth_client_validate_guards) eqn:E1; [discriminate|].
+  intros _. exact (accepted_upper_bound _ _ _ _ _ E1 eth_guards_bloom eq_refl).
 Qed.
 
 (** * Initialize / UpgradeState of a validated client state *)
 Section Safe.
   Variable now : N.
 
-  Lemma bsc_recover_safe hd cid seal : osafe (fun _ => True) (bsc_recover false hd cid seal).
-  Proof. unfold bsc_recover. destruct (hd_extra_len hd <? 65); cbn; [exact I|]. destruct seal; exact I. Qed.
-
-  Lemma parse_validators_safe hd : 97 <= hd_extra_len hd -> osafe (fun _ => True) (parse_validators hd).
+  (** Both slicings of the seal are in bounds: by ecrecover's own length test (regenerated) or by the length the
+      validation guarantees - whichever the regenerated code provides (obligation bsc_guards_ecrecover). *)
+  Lemma bsc_recover_safe hd cid seal :
+    bsc_extra_vanity + bsc_extra_seal <= hd_extra_len hd -> osafe (fun _ => True) (bsc_recover false hd cid seal).
   Proof.
-    intro H. unfold parse_validators. apply N.ltb_ge in H. rewrite H.
-    destruct ((hd_extra_len hd - 97) mod 20 =? 0); exact I.
+    intro Hx. unfold bsc_recover. destruct (guards_reject (header_env hd) bsc_ecrecover_guards) eqn:E; [exact I|].
+    assert (H : N.max bsc_extra_seal 65 <= hd_extra_len hd).
+    { pose proof bsc_guards_ecrecover as Hob. apply orb_true_iff in Hob as [Hob|Hob].
+      - exact (accepted_lower_bound _ _ _ _ _ E Hob eq_refl).
+      - apply N.leb_le in Hob. eapply N.le_trans; [exact Hob | exact Hx]. }
+    assert (H1 : hd_extra_len hd <? bsc_extra_seal = false) by (apply N.ltb_ge; eapply N.le_trans; [apply N.le_max_l | exact H]).
+    assert (H2 : hd_extra_len hd <? 65 = false) by (apply N.ltb_ge; eapply N.le_trans; [apply N.le_max_r | exact H]).
+    rewrite H1, H2. cbn [orb andb]. destruct seal; exact I.
   Qed.
 
-  Lemma bsc_initialize_safe st hd cid epoch seal :
-    validate_bsc hd epoch = Ok tt -> store_wf st -> osafe store_wf (bsc_initialize false st hd cid epoch seal).
+  Lemma parse_validators_safe hd : bsc_extra_vanity + bsc_extra_seal <= hd_extra_len hd -> osafe (fun _ => True) (parse_validators hd).
   Proof.
-    intros Hv Hwf. destruct (validate_bsc_facts _ _ Hv) as (He & Hx & _ & _).
+    intro H. unfold parse_validators. apply N.ltb_ge in H. rewrite H.
+    destruct ((hd_extra_len hd - (bsc_extra_vanity + bsc_extra_seal)) mod bsc_address_length =? 0); exact I.
+  Qed.
+
+  Lemma bsc_initialize_safe st hd cid epoch tr seal :
+    validate_bsc hd cid epoch tr = Ok tt -> store_wf st -> osafe store_wf (bsc_initialize false st hd cid epoch seal).
+  Proof.
+    intros Hv Hwf. destruct (validate_bsc_facts _ _ _ _ Hv) as (He & Hx & _ & _).
     unfold bsc_initialize. apply N.eqb_neq in He. rewrite He.
     destruct (negb (h_ht (hd_height hd) mod epoch =? 0)); [exact I|].
-    eapply osafe_bind; [apply bsc_recover_safe|]. intros _ _.
+    eapply osafe_bind; [apply bsc_recover_safe; exact Hx|]. intros _ _.
     eapply osafe_bind; [apply parse_validators_safe; exact Hx|]. intros _ _.
     cbn. apply store_wf_set_signer. exact Hwf.
   Qed.
 
   Lemma bsc_upgrade_safe st hd cid epoch trusting seal :
-    validate_bsc hd epoch = Ok tt -> store_wf st -> osafe store_wf (bsc_upgrade now false false st hd cid epoch trusting seal).
+    validate_bsc hd cid epoch trusting = Ok tt -> store_wf st -> osafe store_wf (bsc_upgrade now false false st hd cid epoch trusting seal).
   Proof.
-    intros Hv Hwf. destruct (validate_bsc_facts _ _ Hv) as (He & Hx & _ & _).
+    intros Hv Hwf. destruct (validate_bsc_facts _ _ _ _ Hv) as (He & Hx & _ & _).
     unfold bsc_upgrade. apply N.eqb_neq in He. rewrite He.
     destruct (negb (h_ht (hd_height hd) mod epoch =? 0)); [exact I|].
     eapply (osafe_bind (fun _ => True)).
@@ -161,12 +223,12 @@ Section Safe.
     eapply (osafe_bind (fun _ => True)).
     { pose proof (delete_all_signer_no_panic _ Hwf) as Hn. destruct (delete_all_signer (c_signers st)); cbn; congruence || exact I. }
     intros dels _.
-    eapply osafe_bind; [apply bsc_recover_safe|]. intros _ _.
+    eapply osafe_bind; [apply bsc_recover_safe; exact Hx|]. intros _ _.
     eapply osafe_bind; [apply parse_validators_safe; exact Hx|]. intros _ _.
     cbn. apply store_wf_set_signer. unfold store_wf; cbn. apply forallb_fold_remove. exact Hwf.
   Qed.
 
-  Lemma eth_initialize_safe st hd : validate_eth hd = Ok tt -> store_wf st -> osafe store_wf (eth_initialize st hd).
+  Lemma eth_initialize_safe st hd tr : validate_eth hd tr = Ok tt -> store_wf st -> osafe store_wf (eth_initialize st hd).
   Proof.
     intros Hv Hwf. apply validate_eth_facts in Hv. unfold eth_initialize, to_eth_header.
     apply N.ltb_ge in Hv. rewrite Hv. cbn. exact Hwf.
@@ -175,20 +237,20 @@ Section Safe.
   Lemma initialize_safe st cs k :
     validate_client cs = Ok tt -> store_wf st -> osafe store_wf (initialize_gen false st cs k).
   Proof.
-    intros Hv Hwf. destruct cs; cbn in *.
+    intros Hv Hwf. destruct cs as [c n d t u dr l sp|hd cid epoch tr seal|hd tr|a]; unfold validate_client, validate_client_gen in Hv; cbn [initialize_gen].
     - destruct k; cbn; auto.
-    - apply bsc_initialize_safe; assumption.
-    - apply eth_initialize_safe; assumption.
+    - eapply bsc_initialize_safe; eassumption.
+    - eapply eth_initialize_safe; eassumption.
     - exact Hwf.
   Qed.
 
   Lemma upgrade_state_safe st cs k :
     validate_client cs = Ok tt -> store_wf st -> osafe store_wf (upgrade_state_gen now false false st cs k).
   Proof.
-    intros Hv Hwf. destruct cs; cbn in *.
+    intros Hv Hwf. destruct cs as [c n d t u dr l sp|hd cid epoch tr seal|hd tr|a]; unfold validate_client, validate_client_gen in Hv; cbn [upgrade_state_gen].
     - exact Hwf.
     - apply bsc_upgrade_safe; assumption.
-    - apply eth_initialize_safe; assumption.
+    - eapply eth_initialize_safe; eassumption.
     - exact Hwf.
   Qed.
 
@@ -246,10 +308,21 @@ Section Safe.
     destruct cs; cbn; try discriminate. intro H. eauto.
   Qed.
 
+  (** What ValidateBasic guarantees about a relayer proposal: the address (the store key) is not empty, because
+      sdk.AccAddressFromBech32 refuses blank strings. *)
+  Lemma relayer_validate_facts t d a dec chains n :
+    xprop_validate (PRelayer t d a dec chains n) = Ok tt -> (lenN a =? 0) = false.
+  Proof.
+    unfold xprop_validate, xprop_validate_gen.
+    destruct (negb (abstract_ok t d)); [discriminate|].
+    destruct (acc_address_from_bech32 a dec) eqn:E; [|discriminate]. intros _.
+    destruct a as [|b a']; [discriminate E | reflexivity].
+  Qed.
+
   Theorem handle_xprop_safe s p :
     xprop_validate p = Ok tt -> xstate_wf s -> osafe xstate_wf (handle_xprop now false s p).
   Proof.
-    intros Hv Hwf. destruct p as [t d chain cs k|t d chain cs k|t d chain cs k|t d a chains n]; cbn in Hv.
+    intros Hv Hwf. destruct p as [t d chain cs k|t d chain cs k|t d chain cs k|t d a dec chains n]; [cbn in Hv | cbn in Hv | cbn in Hv |].
     - apply client_prop_validate_facts in Hv as (c & -> & Hc). unfold handle_xprop, handle_xprop_gen.
       destruct (c_client (xget s chain)); [exact I|]. cbn [unpack obind].
       eapply osafe_bind; [apply unpack_safe|]. intros kk _.
@@ -267,7 +340,7 @@ Section Safe.
       eapply osafe_bind; [apply cons_type_ok_safe|]. intros _ _.
       eapply osafe_bind; [apply toggle_client_safe; [exact Hc | apply Hwf]|].
       intros st' H'. cbn. apply xstate_wf_xset; assumption.
-    - cbn. exact Hwf.
+    - cbn. rewrite (relayer_validate_facts _ _ _ _ _ _ Hv). exact Hwf.
   Qed.
 
   (** Histories of governance executions: each proposal passed ValidateBasic when it was submitted. *)
@@ -315,14 +388,20 @@ Proof.
   apply obind_ok in H as (types & Hc & H).
   apply obind_ok in H as ([] & Hcons & H).
   apply obind_ok in H as ([] & Hmeta & H).
-  apply obind_ok in H as ([] & Hr & _).
+  apply obind_ok in H as ([] & Hr & H).
+  apply obind_ok in H as ([] & _ & H).
+  apply obind_ok in H as ([] & Hacks & H).
+  apply obind_ok in H as ([] & _ & H).
+  apply obind_ok in H as ([] & Hcomm & _).
   unfold gx_init.
   assert (E1 : all_ok (fun m : bytes * list (bytes * N) =>
                  all_ok (fun kv : bytes * N => if lenN (fst kv) =? 0 then Panic else Ok tt) (snd m)) (gx_metadata g) = Ok tt).
   { apply all_ok_intro. intros m Hm. pose proof (all_ok_ok _ _ Hmeta m Hm) as Hm'. cbn in Hm'.
     destruct (assoc_type types (fst m)); [|discriminate].
-    apply all_ok_intro. intros kv Hkv. pose proof (all_ok_ok _ _ Hm' kv Hkv) as Hkv'. cbn in Hkv'.
-    destruct (lenN (fst kv) =? 0); [discriminate | reflexivity]. }
+    apply all_ok_intro. intros kv Hkv. pose proof (all_ok_ok _ _ Hm' kv Hkv) as Hkv'. unfold gx_validate_metadata in Hkv'.
+    destruct (guards_reject (metadata_env kv) genesis_metadata_validate_guards) eqn:Eg; [discriminate|].
+    pose proof (accepted_lower_bound _ _ _ _ _ Eg metadata_guards_key eq_refl) as Hk.
+    destruct (lenN (fst kv) =? 0) eqn:Ez; [|reflexivity]. apply N.eqb_eq in Ez. rewrite Ez in Hk. exfalso. apply N.le_ngt in Hk. apply Hk. reflexivity. }
   rewrite E1. cbn [obind].
   assert (E2 : all_ok (fun c : bytes * any client_state => match snd c with AnyVal _ => Ok tt | _ => Panic end) (gx_clients g) = Ok tt).
   { apply all_ok_intro. intros c Hin. destruct (gx_validate_clients_vals _ _ _ Hc c Hin) as (cs & ->). reflexivity. }
@@ -334,24 +413,37 @@ Proof.
     apply all_ok_intro. intros [h a] Hhc. pose proof (all_ok_ok _ _ H' _ Hhc) as H''. cbn in H''.
     destruct ((h_rev h =? 0) && (h_ht h =? 0) && negb (ctype_eqb c TETH) && negb (ctype_eqb c TBSC)); [discriminate|]. destruct a; try discriminate. reflexivity. }
   rewrite E3. cbn [obind].
-  apply all_ok_intro. intros r Hin. destruct (rl_addr_len r =? 0) eqn:E; [|reflexivity]. exfalso. apply N.eqb_eq in E.
-  destruct Hrel as [->|Hne].
-  - cbn in Hr. destruct (forallb relayer_ok (gx_relayers g)) eqn:Ex; [|discriminate].
-    rewrite forallb_forall in Ex. specialize (Ex r Hin). unfold relayer_ok in Ex. rewrite E in Ex. discriminate.
-  - exact (Hne r Hin E).
+  assert (E4 : all_ok (fun r : gx_relayer => if rl_addr_len r =? 0 then Panic else Ok tt) (gx_relayers g) = Ok tt).
+  { apply all_ok_intro. intros r Hin. destruct (rl_addr_len r =? 0) eqn:E; [|reflexivity]. exfalso. apply N.eqb_eq in E.
+    destruct Hrel as [->|Hne].
+    - cbn in Hr. destruct (forallb relayer_ok (gx_relayers g)) eqn:Ex; [|discriminate].
+      rewrite forallb_forall in Ex. specialize (Ex r Hin). unfold relayer_ok in Ex. rewrite E in Ex. discriminate.
+    - exact (Hne r Hin E). }
+  rewrite E4. cbn [obind].
+  assert (Hdata : forall gs l, existsb (forced (ABelow (KLen "Data") 1)) gs = true -> all_ok (gx_validate_packet gs) l = Ok tt ->
+            all_ok (fun p : gx_packet => if gp_data_len p =? 0 then Panic else Ok tt) l = Ok tt).
+  { intros gs l Hf Hl. apply all_ok_intro. intros p Hp. pose proof (all_ok_ok _ _ Hl p Hp) as Hv. unfold gx_validate_packet in Hv.
+    destruct (negb (identifier_ok (gp_src p))); [discriminate|]. destruct (negb (identifier_ok (gp_dst p))); [discriminate|].
+    destruct (gp_seq p =? 0); [discriminate|].
+    destruct (guards_reject (packet_env p) gs) eqn:Eg; [discriminate|].
+    pose proof (accepted_lower_bound _ _ _ _ _ Eg Hf eq_refl) as Hk.
+    destruct (gp_data_len p =? 0) eqn:Ez; [|reflexivity]. apply N.eqb_eq in Ez. rewrite Ez in Hk. exfalso. apply N.le_ngt in Hk. apply Hk. reflexivity. }
+  rewrite (Hdata _ _ packet_ack_guards_data Hacks). cbn [obind].
+  exact (Hdata _ _ packet_commitment_guards_data Hcomm).
 Qed.
 
 (** ** aggregate *)
 Lemma ga_validate_pairs_denoms l : forall se sd,
   ga_validate_pairs false l se sd = Ok tt -> forall p, In p l -> gp_denoms p <> [].
 Proof.
-  induction l as [|q t IH]; cbn; intros se sd H p Hin; [contradiction|].
+  induction l as [|q t IH]; intros se sd H p Hin; [contradiction|]. cbn [ga_validate_pairs] in H.
   destruct (mem (addr_key (gp_erc20 q)) se); [discriminate|].
-  destruct (gp_denoms q) as [|d0 ds] eqn:Ed; [discriminate|].
-  destruct (denoms_fresh (d0 :: ds) sd) as [seen|]; [|discriminate].
-  destruct (negb (forallb (fun d => valid_denom d && negb (is_hex_address d)) (d0 :: ds))); [discriminate|].
+  destruct (guards_reject (ga_pair_env q) aggregate_genesis_pair_guards) eqn:Eg; [discriminate|].
+  pose proof (lenN_pos _ (accepted_lower_bound _ _ _ _ _ Eg aggregate_pair_guards_denoms eq_refl)) as Hq.
+  destruct (denoms_fresh (gp_denoms q) sd) as [seen|]; [|discriminate].
+  destruct (negb (forallb (fun d => valid_denom d && negb (is_hex_address d)) (gp_denoms q))); [discriminate|].
   destruct (negb (is_hex_address (gp_erc20 q))); [discriminate|].
-  destruct Hin as [<-|Hin]; [rewrite Ed; discriminate | eapply IH; eassumption].
+  destruct Hin as [<-|Hin]; [exact Hq | eapply IH; eassumption].
 Qed.
 
 Lemma ga_init_safe l : ga_validate l = Ok tt -> ga_init l = Ok tt.
@@ -403,20 +495,20 @@ Section SafeStrict.
   Variable now : N.
   Notation T := (fun _ : cstore => True).
 
-  Lemma bsc_initialize_nopanic st hd cid epoch seal :
-    validate_bsc hd epoch = Ok tt -> osafe T (bsc_initialize false st hd cid epoch seal).
+  Lemma bsc_initialize_nopanic st hd cid epoch tr seal :
+    validate_bsc hd cid epoch tr = Ok tt -> osafe T (bsc_initialize false st hd cid epoch seal).
   Proof.
-    intros Hv. destruct (validate_bsc_facts _ _ Hv) as (He & Hx & _ & _).
+    intros Hv. destruct (validate_bsc_facts _ _ _ _ Hv) as (He & Hx & _ & _).
     unfold bsc_initialize. apply N.eqb_neq in He. rewrite He.
     destruct (negb (h_ht (hd_height hd) mod epoch =? 0)); [exact I|].
-    eapply osafe_bind; [apply bsc_recover_safe|]. intros _ _.
+    eapply osafe_bind; [apply bsc_recover_safe; exact Hx|]. intros _ _.
     eapply osafe_bind; [apply parse_validators_safe; exact Hx|]. intros _ _. exact I.
   Qed.
 
   Lemma bsc_upgrade_strict_nopanic st hd cid epoch trusting seal :
-    validate_bsc hd epoch = Ok tt -> osafe T (bsc_upgrade now true false st hd cid epoch trusting seal).
+    validate_bsc hd cid epoch trusting = Ok tt -> osafe T (bsc_upgrade now true false st hd cid epoch trusting seal).
   Proof.
-    intros Hv. destruct (validate_bsc_facts _ _ Hv) as (He & Hx & _ & _).
+    intros Hv. destruct (validate_bsc_facts _ _ _ _ Hv) as (He & Hx & _ & _).
     unfold bsc_upgrade. apply N.eqb_neq in He. rewrite He.
     destruct (negb (h_ht (hd_height hd) mod epoch =? 0)); [exact I|].
     eapply (osafe_bind (fun _ => True)).
@@ -426,22 +518,22 @@ Section SafeStrict.
     { pose proof (delete_all_signer_strict_no_panic (c_signers st)) as Hn.
       destruct (delete_all_signer_strict (c_signers st)); cbn; congruence || exact I. }
     intros dels _.
-    eapply osafe_bind; [apply bsc_recover_safe|]. intros _ _.
+    eapply osafe_bind; [apply bsc_recover_safe; exact Hx|]. intros _ _.
     eapply osafe_bind; [apply parse_validators_safe; exact Hx|]. intros _ _. exact I.
   Qed.
 
   Lemma initialize_nopanic st cs k : validate_client cs = Ok tt -> osafe T (initialize_gen false st cs k).
   Proof.
-    intros Hv. destruct cs; cbn in *.
+    intros Hv. destruct cs as [c n d t u dr l sp|hd cid epoch tr seal|hd tr|a]; unfold validate_client, validate_client_gen in Hv; cbn [initialize_gen].
     - destruct k; cbn; auto.
-    - apply bsc_initialize_nopanic; assumption.
+    - eapply bsc_initialize_nopanic; eassumption.
     - apply validate_eth_facts in Hv. unfold eth_initialize, to_eth_header. apply N.ltb_ge in Hv. rewrite Hv. exact I.
     - exact I.
   Qed.
 
   Lemma upgrade_state_strict_nopanic st cs k : validate_client cs = Ok tt -> osafe T (upgrade_state_gen now true false st cs k).
   Proof.
-    intros Hv. destruct cs; cbn in *.
+    intros Hv. destruct cs as [c n d t u dr l sp|hd cid epoch tr seal|hd tr|a]; unfold validate_client, validate_client_gen in Hv; cbn [upgrade_state_gen].
     - exact I.
     - apply bsc_upgrade_strict_nopanic; assumption.
     - apply validate_eth_facts in Hv. unfold eth_initialize, to_eth_header. apply N.ltb_ge in Hv. rewrite Hv. exact I.
@@ -455,7 +547,7 @@ Section SafeStrict.
   Theorem handle_xprop_strict_safe s p : xprop_validate p = Ok tt -> handle_xprop now true s p <> Panic.
   Proof.
     intros Hv. apply (osafe_not_panic (fun _ => True)).
-    destruct p as [t d chain cs k|t d chain cs k|t d chain cs k|t d a chains n]; cbn in Hv.
+    destruct p as [t d chain cs k|t d chain cs k|t d chain cs k|t d a dec chains n]; [cbn in Hv | cbn in Hv | cbn in Hv |].
     - apply client_prop_validate_facts in Hv as (c & -> & Hc). unfold handle_xprop, handle_xprop_gen.
       destruct (c_client (xget s chain)); [exact I|]. cbn [unpack obind].
       eapply osafe_bind; [apply unpack_safe|]. intros kk _.
@@ -478,7 +570,7 @@ Section SafeStrict.
       unfold toggle_client. destruct (c_client (xget s chain)) as [cur|]; [|exact I].
       destruct (ctype_eqb (client_type cur) (client_type c)); [exact I|].
       cbn [negb andb]. eapply osafe_bind; [apply initialize_nopanic; exact Hc|]. intros; exact I.
-    - cbn. exact I.
+    - cbn. rewrite (relayer_validate_facts _ _ _ _ _ _ Hv). exact I.
   Qed.
 End SafeStrict.
 
